@@ -284,9 +284,12 @@ func head(b []byte, n int) []byte {
 
 // ---- generators ----------------------------------------------------------------------------
 
-func genResp(t *rapid.T) refbundle.AsmResp {
+func genResp(t *rapid.T, hostile bool) refbundle.AsmResp {
 	r := refbundle.AsmResp{BodyLen: rapid.SampledFrom([]int{0, 1, 5, 23, 24, 100, 255, 256, 300}).Draw(t, "bodylen"), BodyTag: rapid.Uint64().Draw(t, "bodytag")}
-	st := rapid.SampledFrom([]string{"200", "200", "404", "301", "999", "100"}).Draw(t, "status")
+	st := rapid.SampledFrom([]string{"200", "200", "404", "301", "999", "100", "200", "200x", "200 ", "2000", "20", "", "abc", "9223372036854775808", "-20"}).Draw(t, "status")
+	if !hostile && (len(st) != 3 || st[0] < '0' || st[0] > '9' || st[2] > '9') {
+		st = "200" // the unknown-section relation needs a base bundle that is valid by construction
+	}
 	r.Fields = append(r.Fields, refbundle.HeaderField{Name: ":status", Value: st})
 	n := rapid.IntRange(0, 3).Draw(t, "nh")
 	for i := 0; i < n; i++ {
@@ -309,7 +312,7 @@ func GenAsm(t *rapid.T, allowRaw bool) refbundle.Asm {
 	}
 	nr := rapid.IntRange(0, 4).Draw(t, "nresp")
 	for i := 0; i < nr; i++ {
-		a.Resps = append(a.Resps, genResp(t))
+		a.Resps = append(a.Resps, genResp(t, allowRaw))
 	}
 	for i := 0; i < nr; i++ {
 		a.Index = append(a.Index, refbundle.AsmIndex{URL: fmt.Sprintf("https://a.example/r%d%s", i, rapid.SampledFrom([]string{"", "?q=1", "/x%20y"}).Draw(t, "usuf")), Resps: []int{i}})
